@@ -298,3 +298,63 @@ def check_not_quietly_caught(ctx: Ctx, rep: Any, rule: str, classes: List[ClassI
             "; ".join(f"derives from {q.name}, caught quietly at {site}" for q, site in swallowed),
             key=f"{cls.key}|quietly-caught",
         )
+
+
+def bound_method_as_closure(ctx: Ctx, maker: FuncInfo, expr: ast.AST) -> Optional[FuncInfo]:
+    """
+    ``Cls(a, b).meth`` returned by a factory is the closure ``meth`` over the constructor arguments: a view of the
+    method without ``self`` in which every ``self.<field>`` is the expression the factory stored there (fields bound by
+    plain ``self.f = <param>`` stores of ``__init__``; sibling methods called on self are inlined first).
+    None when the expression is not of that form.
+    """
+    import copy
+
+    from ..engine.context import bind_call_args as _bind
+
+    if not (isinstance(expr, ast.Attribute) and isinstance(expr.value, ast.Call)):
+        return None
+    cls = ctx.r.resolve_class(maker.module, expr.value.func)
+    if cls is None or cls.module.external:
+        return None
+    meth = ctx.r.method(cls, expr.attr)
+    init = ctx.r.method(cls, "__init__")
+    if meth is None or init is None or not meth.params or meth.params[0] != "self":
+        return None
+    stores: Dict[str, str] = {}
+    for st in init.node.body:
+        if isinstance(st, ast.Expr) and isinstance(st.value, ast.Constant):
+            continue
+        tgt = st.targets[0] if isinstance(st, ast.Assign) and len(st.targets) == 1 else None
+        if not (isinstance(tgt, ast.Attribute) and isinstance(tgt.value, ast.Name) and tgt.value.id == "self" and isinstance(st.value, ast.Name) and st.value.id in init.params):
+            return None
+        stores[tgt.attr] = st.value.id
+    for klass in ctx.r.mro(cls):
+        for other in klass.methods.values():
+            if other is not init and any(isinstance(n, ast.Attribute) and n.attr in stores and isinstance(n.ctx, ast.Store) for n in ast.walk(other.node)):
+                return None
+    bound = _bind(expr.value, init.params, skip_self=True)
+    if any(p not in bound for p in stores.values()):
+        return None
+    node = copy.deepcopy(meth.node)
+    node.args.args = node.args.args[1:] if not node.args.posonlyargs else node.args.args
+    if node.args.posonlyargs:
+        node.args.posonlyargs = node.args.posonlyargs[1:]
+
+    class Inl(ast.NodeTransformer):
+        def visit_Return(self, n: ast.Return) -> ast.AST:  # noqa: N802
+            if n.value is not None:
+                n.value = ctx.xexpand(meth, n.value, depth=2, stop=meth.params)
+            return n
+
+    class Sub(ast.NodeTransformer):
+        def visit_Attribute(self, n: ast.Attribute) -> ast.AST:  # noqa: N802
+            if isinstance(n.value, ast.Name) and n.value.id == "self" and n.attr in stores and isinstance(n.ctx, ast.Load):
+                return copy.deepcopy(bound[stores[n.attr]])
+            return self.generic_visit(n)
+
+    node = Sub().visit(Inl().visit(node))
+    if any(isinstance(n, ast.Name) and n.id == "self" for n in ast.walk(node)):
+        return None
+    ast.fix_missing_locations(node)
+    view = FuncInfo(maker.module if meth.module is maker.module else meth.module, f"{maker.qualname}.<locals>.{cls.name}.{meth.name}", node, None, maker)
+    return view
